@@ -172,6 +172,55 @@ func vfH_C15_sanitize(tier int) {
 	vfReach("C15_sanitize/ok")
 }
 
+// several password statements in one text (same or different kinds, any order): every password is redacted
+func vfH_C15_multi(tier int) {
+	// fixed keyword spelling and single blanks (the single-statement harness varies those); names and passwords symbolic
+	g := &vfGen{tier: tier, budget: 0, noEquals: true, plainWS: true, plainKW: true}
+	ns := 2 + vfChoice(1+tier)
+	var is, js []int
+	for k := 0; k < ns; k++ {
+		if k > 0 {
+			g.raw(" ; ") // blank after the literal: the layout Sanitize's patterns are written for
+		}
+		i, j, _ := c15Statement(g, vfChoice(3), 1+vfChoice(2), true)
+		is, js = append(is, i), append(js, j)
+	}
+	text := g.text()
+	vfNote(text)
+	if _, err := ParseQuery(text); err != nil {
+		vfReach("C15_multi/rejected")
+		return
+	}
+	got := Sanitize(text)
+	vfNote(got)
+	// expected: the text with every password literal replaced by one of the fixed forms
+	pos := 0 // position in got
+	prev := 0
+	okAll := true
+	for k := 0; k < ns && okAll; k++ {
+		seg := text[prev:is[k]]
+		if len(got) < pos+len(seg) || got[pos:pos+len(seg)] != seg {
+			okAll = false
+			break
+		}
+		pos += len(seg)
+		switch {
+		case len(got) >= pos+10 && got[pos:pos+10] == "[REDACTED]":
+			pos += 10
+		case len(got) >= pos+12 && got[pos:pos+12] == "'[REDACTED]'":
+			pos += 12
+		default:
+			okAll = false
+		}
+		prev = js[k]
+	}
+	if okAll {
+		okAll = got[pos:] == text[prev:]
+	}
+	vfAssert(okAll, "C15/multi/every-password-is-redacted-and-nothing-else-changes")
+	vfReach("C15_multi/ok")
+}
+
 // text without a password clause is returned unchanged
 func vfH_C15_unchanged(tier int) {
 	var text string
